@@ -63,6 +63,113 @@ def window_rule(ctx, body, rule, source_methods, expected, accept_blocks, what):
     return found
 
 
+def _diff_operands(body, t):
+    """operands of the difference whose magnitude a window test takes: the two arguments of `a.abs_diff(b)`; for `(a - b).abs()` the
+    operands of the subtraction (followed through copies and the checked-arithmetic tuple)"""
+    c = Callee(t["f"])
+    if c.method == "abs_diff":
+        return [op_place(a)[0] for a in t["args"][:2] if op_place(a) is not None]
+    p = op_place(t["args"][0]) if t["args"] else None
+    work, seen = ([p[0]] if p else []), set()
+    while work:
+        l = work.pop()
+        if l in seen or len(seen) > 12:
+            continue
+        seen.add(l)
+        for d in body.defs().get(l, []):
+            if d[0] != "assign":
+                continue
+            rv = d[3]["rv"]
+            if rv["k"] == "bin" and rv["op"].startswith("Sub"):
+                return [op_place(x)[0] for x in (rv["a"], rv["b"]) if op_place(x) is not None]
+            if rv["k"] in ("use", "cast"):
+                q = op_place(rv["op"])
+                if q is not None:
+                    work.append(q[0])
+    return []
+
+
+def _is_clock_call(prog, c):
+    def clock(cc):
+        return cc.method == "now" and any(w in (cc.name + " " + (cc.self_s or "")) for w in ("SystemTime", "Instant"))
+    if clock(c):
+        return True
+    cb = prog.body(c.target)
+    if cb is None or cb.argc != 0:
+        return False
+    return any(clock(cc) for (_, cc, _) in prog.flat(cb.defp).calls())
+
+
+def clock_read_at_check_time(prog, body, local, depth=0):
+    """`local` (an operand of a freshness comparison) is a clock reading taken in the activation that makes the comparison: a clock call lies
+    in its backward slice here, or it is a parameter and every caller passes such a reading. A value that comes out of a field of the
+    codec / context, or into an entry point from outside, was read at some *other* time (construction, accept, first use): the window is
+    then measured from that moment, and a token stays acceptable for as long as the object lives. Returns (ok, why)."""
+    seen, calls, _ = body.slice_back([local])
+    if any(_is_clock_call(prog, c) for (_, c, _) in calls):
+        return True, "clock read in this activation"
+    params = sorted(l for l in seen if 1 <= l <= body.argc)
+    if not params:
+        return False, f"the value compared with the timestamp in {last_seg(body.defp)} has no clock read behind it"
+    if depth >= 4:
+        return False, "clock provenance not found within 4 callers"
+    if body.root != body.defp:          # a closure: its captures are the 'arguments', the enclosing function the 'caller'
+        parent = prog.body(body.root)
+        for fb0 in ([parent] if parent is not None else []):
+            for blk in fb0.rpo():
+                for s_ in fb0.stmts(blk):
+                    if s_["k"] == "assign" and s_["rv"]["k"] == "agg" and s_["rv"].get("ak") == "closure" and s_["rv"].get("def") == body.defp:
+                        for o in s_["rv"]["ops"]:
+                            q = op_place(o)
+                            if q is not None and clock_read_at_check_time(prog, fb0, q[0], depth + 1)[0]:
+                                return True, "captured clock reading of the enclosing activation"
+        return False, f"the closure {last_seg(body.defp)} compares the timestamp with a captured value that is not a clock reading of the enclosing activation"
+    sites = []
+    for cb in prog.prod_bodies():
+        for (blk, c, t) in cb.calls():
+            tb = prog.body(c.target)
+            if tb is not None and tb.defp == body.defp:
+                sites.append((cb, t))
+    if not sites:
+        what = "a field of the receiver" if 1 in params and body.local_name(1) == "self" else "a parameter of an entry point"
+        return False, (f"the value compared with the timestamp comes from {what} of {last_seg(body.defp)}, not from a clock read made when the token is "
+                       "judged: the window is measured from whenever that value was stored, so a token that has long expired is still accepted on an object that is old enough")
+    for (cb, t) in sites:
+        ok_site, why_site = False, ""
+        for k in params:
+            q = op_place(t["args"][k - 1]) if k - 1 < len(t["args"]) else None
+            if q is None:
+                why_site = why_site or f"{last_seg(cb.defp)} passes a constant"
+                continue
+            ok1, why1 = clock_read_at_check_time(prog, cb, q[0], depth + 1)
+            if ok1:
+                ok_site = True
+                break
+            why_site = why1
+        if not ok_site:
+            return False, why_site
+    return True, "every caller passes a clock reading of its own activation"
+
+
+def window_clock_rule(ctx, prog, body, rule, what, methods):
+    n = 0
+    for (blk, c, t) in body.calls():
+        if c.method not in methods or not t["args"]:
+            continue
+        if c.method == "abs" and c.self_s not in ("i64", "i128", "i32", "isize"):
+            continue
+        ops = _diff_operands(body, t)
+        if not ops:
+            continue
+        n += 1
+        res = [clock_read_at_check_time(prog, body, l) for l in ops]
+        ok = any(r[0] for r in res)
+        ctx.ob(rule, body.defp, f"{what}:clock", loc(t["sp"]), ok,
+               "one side of the window comparison is a clock reading taken when the timestamp is judged" if ok else
+               "; ".join(dict.fromkeys(r[1] for r in res)))
+    return n
+
+
 def accept_blocks_of(body):
     """accepting returns of a decoder: Ok(Some(..)) if the function returns Result<Option<..>>, else every Ok(..)"""
     if getattr(body, "is_flat", False):
@@ -108,9 +215,9 @@ def run(ctx):
             ctx.ob("V1a", body.defp, "ss2022:window-comparison", loc(body.sp), False,
                    "no two-sided window: the function never compares |now - timestamp| (abs_diff/abs) with a constant, so stale or future timestamps pass")
         vt_paths.add(body.defp)
-        # `now` must come from the system clock
-        ok = any("SystemTime" in c.target or c.target.endswith("::now") for (_, c, _) in body.calls())
-        ctx.ob("V1a", body.defp, "ss2022:clock", loc(body.sp), ok, "window function reads the clock")
+        # `now` must be a clock reading made when the timestamp is judged (in the function, or handed in by every caller)
+        if window_clock_rule(ctx, prog, body, "V1a", "ss2022", {"abs_diff", "abs"}) == 0:
+            ctx.ob("V1a", body.defp, "ss2022:clock", loc(body.sp), False, "no |now - timestamp| difference found in the window function")
 
     # ---------------- V1a': VMess auth-id ------------------------------------------------------
     am = [b for b in prog.prod_bodies() if b.root == b.defp and "vmess" in b.defp and
@@ -118,10 +225,13 @@ def run(ctx):
     ctx.floor("V1a", "VMess auth-id matcher (|t-now| test)", 1, len(am))
     for body in am:
         acc = ok_some_blocks(body)
+        if not acc and "Result<" not in body.local_ty(0):       # the matcher may answer `Option<key>` itself (clock error handled by its caller)
+            acc = [b for b, v in returns_variant(body).items() if v == "Some"]
         ctx.floor("V1a", f"accepting returns in {last_seg(body.defp)}", 1, len(acc))
         n = window_rule(ctx, body, "V1a", {"abs"}, WINDOW_VMESS, acc, "vmess-authid")
         if n == 0:
             ctx.ob("V1a", body.defp, "vmess-authid:window-comparison", loc(body.sp), False, "no |t-now| comparison found")
+        window_clock_rule(ctx, prog, body, "V1a", "vmess-authid", {"abs"})
         # CRC equality on the same path
         crc_ok = False
         for b in body.rpo():
